@@ -12,6 +12,21 @@
 // The independent oracle (type oracle below) is a direct recursive
 // interpreter of the AST written from the property text; it never looks at
 // the Coq model.
+//
+// Memory layout.  The action list of a static (or harness-defined custom) step
+// is a Go slice, and StaticStep.Actions() hands out that very slice.  Every
+// case therefore comes with a layout (gCase.Arrays + Arr/Off/Cap of the
+// steps): the action lists are windows of action arrays that belong to the
+// flow definition — private and exact like a composite literal, private with
+// spare capacity, several steps (of several flows) side by side in ONE array
+// so that the spare capacity of one window is the content of the next, the
+// same window used by several steps, or a sub-window (prefix ...) of another
+// step's list.  The oracle judges the run against the AST, i.e. against the
+// flow AS DEFINED BEFORE the run, and checks afterwards that no slot of the
+// definition's arrays (and of the flows' Steps arrays) changed and, for
+// stepwise runs, that no log entry changed after it was recorded.  The Coq
+// side replays the case on the slice-level model (Model/InterpHeap.v): where
+// every logged slice points and what the arrays hold after the run.
 package main
 
 import (
@@ -22,6 +37,7 @@ import (
 	"strconv"
 	"strings"
 	"time"
+	"unsafe"
 
 	"github.com/9elements/converged-security-suite/v2/pkg/bootflow/actions/commonactions"
 	"github.com/9elements/converged-security-suite/v2/pkg/bootflow/actions/tpmactions"
@@ -35,7 +51,7 @@ import (
 	"verifharness/gal"
 )
 
-const header = "From CSS Require Import Lib.Base Lib.Cases Model.Interp Model.InterpCases."
+const header = "From CSS Require Import Lib.Base Lib.Cases Model.Interp Model.InterpHeap Model.InterpCases."
 
 // ------------------------------------------------------------------ AST
 
@@ -130,6 +146,19 @@ type gStep struct {
 	ID      int      `json:"id,omitempty"`
 	Panics  bool     `json:"panics,omitempty"`
 	Fn      *gFun    `json:"fn,omitempty"` // sSetFlowFunc
+	// memory of the action list (sStatic non-nil, sCustom, sMeasure): the
+	// window Arrays[Arr][Off : Off+len(Acts) : Off+Cap]; such a step always
+	// has cap >= 1 in the JSON, arr / off are left out when 0
+	Arr int `json:"arr,omitempty"`
+	Off int `json:"off,omitempty"`
+	Cap int `json:"cap,omitempty"`
+
+	aliasOf *gStep // layout: this step's list is a sub-window of that step's list
+}
+
+// hasList: the step owns an action list in memory
+func (s *gStep) hasList() bool {
+	return (s.K == sStatic && !s.Nil) || s.K == sCustom || s.K == sMeasure
 }
 
 type gTop struct {
@@ -151,6 +180,10 @@ type gCase struct {
 	Meas0   []int   `json:"meas0"`    // MeasuredData present before the run
 	Steps   int     `json:"nextstep"` // -1: Finish; k >= 0: at most k NextStep calls
 	Comment string  `json:"comment,omitempty"`
+	// the action arrays of the flow definition (every slot, spare capacity
+	// included) and how they were laid out
+	Arrays [][]gAct `json:"arrays"`
+	Layout string   `json:"layout,omitempty"`
 }
 
 // ------------------------------------------------------------------ harness-defined bootflow types
@@ -279,6 +312,12 @@ type built struct {
 	tpm     *tpm.TPM
 	state   *types.State
 	process *bootengine.BootProcess
+	// the definition's memory: action arrays (every slot), what they and the
+	// flows' Steps arrays (every slot up to the capacity) held before the run
+	arrays    []types.Actions
+	snapArr   [][]types.Action
+	snapSteps map[int][]types.Step
+	measured  map[*gStep]types.Step // one StaticStep value per sMeasure node
 }
 
 type regEntry struct {
@@ -383,12 +422,22 @@ func (b *built) action(a gAct) types.Action {
 	panic("bad action kind")
 }
 
-func (b *built) actions(as []gAct) types.Actions {
-	r := make(types.Actions, 0, len(as)+1)
-	for _, a := range as {
-		r = append(r, b.action(a))
+// window: the slice of the definition's memory that is the step's action list
+func (b *built) window(s *gStep) types.Actions {
+	if s.Arr < 0 || s.Arr >= len(b.arrays) {
+		panic(fmt.Sprintf("harness: step without layout (arr %d of %d)", s.Arr, len(b.arrays)))
 	}
-	return r
+	arr := b.arrays[s.Arr]
+	n := len(s.Acts)
+	if s.Off < 0 || s.Cap < n || s.Cap < 1 || s.Off+s.Cap > len(arr) {
+		panic(fmt.Sprintf("harness: bad window arr=%d off=%d len=%d cap=%d of %d", s.Arr, s.Off, n, s.Cap, len(arr)))
+	}
+	for i := range s.Acts {
+		if !reflect.DeepEqual(s.Acts[i], b.gc.Arrays[s.Arr][s.Off+i]) {
+			panic(fmt.Sprintf("harness: window arr=%d off=%d does not hold the step's actions", s.Arr, s.Off))
+		}
+	}
+	return arr[s.Off : s.Off+n : s.Off+s.Cap]
 }
 
 func (b *built) step(s *gStep) types.Step {
@@ -400,7 +449,7 @@ func (b *built) step(s *gStep) types.Step {
 		if s.Nil {
 			return types.StaticStep(nil)
 		}
-		return types.StaticStep(b.actions(s.Acts))
+		return types.StaticStep(b.window(s))
 	case sIf:
 		return commonsteps.If(hCond{c: s.Cond, actors: b.actors}, b.step(s.Then), b.step(s.Else))
 	case sMerge:
@@ -421,10 +470,19 @@ func (b *built) step(s *gStep) types.Step {
 	case sInitTPM:
 		return tpmsteps.InitTPM(uint8(s.ID%5), s.WithLog)
 	case sCustom:
-		return &hStep{ID: s.ID, Panics: s.Panics, Acts: b.actions(s.Acts)}
+		return &hStep{ID: s.ID, Panics: s.Panics, Acts: b.window(s)}
 	case sMeasure:
+		// the literal made by the real constructor is the step's array
+		if st, ok := b.measured[s]; ok {
+			return st
+		}
 		a := s.Acts[0]
-		return tpmsteps.Measure(pcr.ID(a.ID%2), tpmeventlog.EV_POST_CODE, b.ds(a.ID, a.Res))
+		st := tpmsteps.Measure(pcr.ID(a.ID%2), tpmeventlog.EV_POST_CODE, b.ds(a.ID, a.Res))
+		b.measured[s] = st
+		if lit, ok := st.(types.StaticStep); ok && s.Arr >= 0 && s.Arr < len(b.arrays) {
+			b.arrays[s.Arr] = types.Actions(lit)
+		}
+		return st
 	case sSetFlowFunc:
 		return commonsteps.SetFlowFromFunc(b.chooser(s.ID, s.Fn))
 	}
@@ -432,7 +490,11 @@ func (b *built) step(s *gStep) types.Step {
 }
 
 func build(gc *gCase) *built {
-	b := &built{gc: gc, flows: map[int]*types.Flow{}, actors: map[int]*hActor{}, dss: map[int]*hDS{}, chain: &hChain{}}
+	b := &built{gc: gc, flows: map[int]*types.Flow{}, actors: map[int]*hActor{}, dss: map[int]*hDS{}, chain: &hChain{},
+		snapSteps: map[int][]types.Step{}, measured: map[*gStep]types.Step{}}
+	if gc.Arrays == nil {
+		layoutExact(gc)
+	}
 	// allocate every Steps slice first: Flow values are copied into SetFlow
 	// steps/actions, the slice header they carry shares the backing array that
 	// is filled in afterwards (this is also what makes cyclic families possible).
@@ -440,6 +502,14 @@ func build(gc *gCase) *built {
 		f := &gc.Flows[i]
 		// cap+1 keeps zero-length slices non-nil
 		b.flows[f.Name] = &types.Flow{Name: flowName(f.Name), Steps: make(types.Steps, len(f.Steps), len(f.Steps)+1)}
+	}
+	// the action arrays, one action object per slot
+	for _, arr := range gc.Arrays {
+		mem := make(types.Actions, len(arr))
+		for j, a := range arr {
+			mem[j] = b.action(a)
+		}
+		b.arrays = append(b.arrays, mem)
 	}
 	for i := range gc.Flows {
 		f := &gc.Flows[i]
@@ -469,6 +539,15 @@ func build(gc *gCase) *built {
 	state.SetFlow(b.flow(gc.Root))
 	b.state = state
 	b.process = bootengine.NewBootProcess(state)
+	// what the definition looks like before the run
+	for _, arr := range b.arrays {
+		b.snapArr = append(b.snapArr, append([]types.Action{}, arr[:cap(arr)]...))
+	}
+	for name, f := range b.flows {
+		if f.Steps != nil {
+			b.snapSteps[name] = append([]types.Step{}, f.Steps[:cap(f.Steps)]...)
+		}
+	}
 	return b
 }
 
@@ -481,6 +560,9 @@ type obsEntry struct {
 	Measured []int    `json:"measured"`
 	Actor    int      `json:"actor"`
 	Code     int      `json:"code"`
+	// where StepResult.Actions points: [array, offset] inside the definition's
+	// memory, nil: nil slice or memory that is not part of the definition
+	Loc *[2]int `json:"loc,omitempty"`
 }
 
 type obsResult struct {
@@ -494,6 +576,12 @@ type obsResult struct {
 	Actor    int        `json:"actor"`
 	TPM      int        `json:"tpm"`
 	Done     bool       `json:"done"`
+	// the definition's action arrays after the run (codes of every slot)
+	ArraysAfter [][][2]int `json:"arrays_after,omitempty"`
+	// "" or how the definition differs from what it was before the run
+	DefChanged string `json:"definition_changed,omitempty"`
+	// "" or which log entry changed after it had been recorded (stepwise runs)
+	Unstable string `json:"log_entry_changed,omitempty"`
 }
 
 func sameStep(a, b types.Step) bool {
@@ -542,6 +630,9 @@ func dsID(d types.DataSource) int {
 }
 
 func actionCode(a types.Action) [2]int {
+	if a == nil {
+		return [2]int{98, 0}
+	}
 	switch v := a.(type) {
 	case *commonactions.SetFlowStruct:
 		return [2]int{aSetFlow, flowID(v.NextFlow.Name)}
@@ -597,9 +688,105 @@ func measuredIDs(m types.MeasuredDataSlice) []int {
 	return r
 }
 
-func (b *built) observe(done bool) obsResult {
-	var o obsResult
-	o.Log = []obsEntry{}
+// sameAction: the very same action object (or the same value of a comparable
+// non-pointer action type)
+func sameAction(x, y types.Action) (same bool) {
+	defer func() {
+		if recover() != nil {
+			same = false
+		}
+	}()
+	return x == y
+}
+
+// locate: where in the definition's memory the slice starts
+func (b *built) locate(a types.Actions) *[2]int {
+	if cap(a) == 0 {
+		return nil
+	}
+	p := uintptr(unsafe.Pointer(unsafe.SliceData(a)))
+	size := unsafe.Sizeof(types.Action(nil))
+	for k, arr := range b.arrays {
+		if cap(arr) == 0 {
+			continue
+		}
+		base := uintptr(unsafe.Pointer(unsafe.SliceData(arr)))
+		if p >= base && p < base+uintptr(cap(arr))*size {
+			return &[2]int{k, int((p - base) / size)}
+		}
+	}
+	return nil
+}
+
+// users: the steps of the definition whose action list covers slot j of array k
+func (gc *gCase) users(k, j int) string {
+	var r []string
+	seen := map[*gStep]bool{}
+	var walk func(flow, sid int, s *gStep)
+	walk = func(flow, sid int, s *gStep) {
+		if s == nil || seen[s] {
+			return
+		}
+		seen[s] = true
+		if s.hasList() && s.Arr == k && s.Off <= j && j < s.Off+len(s.Acts) {
+			r = append(r, fmt.Sprintf("action #%d of a static part of step %d (flow F%d)", j-s.Off, sid, flow))
+		}
+		walk(flow, sid, s.Then)
+		walk(flow, sid, s.Else)
+		for _, x := range s.Subs {
+			walk(flow, sid, x)
+		}
+	}
+	for _, f := range gc.Flows {
+		for _, ts := range f.Steps {
+			walk(f.Name, ts.Sid, ts.S)
+		}
+	}
+	if len(r) == 0 {
+		return "spare capacity of the definition's slices"
+	}
+	if len(r) > 3 {
+		r = append(r[:3], "...")
+	}
+	return strings.Join(r, ", ")
+}
+
+// definitionChanged: "" when every slot of the definition's action arrays and
+// of the flows' Steps arrays is what it was before the run.
+func (b *built) definitionChanged() string {
+	for k, arr := range b.arrays {
+		now := arr[:cap(arr)]
+		for j := range now {
+			if !sameAction(now[j], b.snapArr[k][j]) {
+				return fmt.Sprintf("action array #%d slot %d held %v before the run and holds %v after it (%s)",
+					k, j, actionCode(b.snapArr[k][j]), actionCode(now[j]), b.gc.users(k, j))
+			}
+		}
+	}
+	for name, f := range b.flows {
+		snap, ok := b.snapSteps[name]
+		if !ok {
+			if f.Steps != nil {
+				return fmt.Sprintf("flow F%d had nil Steps before the run", name)
+			}
+			continue
+		}
+		now := f.Steps[:cap(f.Steps)]
+		if len(now) != len(snap) {
+			return fmt.Sprintf("the Steps of flow F%d were re-sliced", name)
+		}
+		for j := range now {
+			if !sameStep(now[j], snap[j]) {
+				return fmt.Sprintf("slot %d of the Steps array of flow F%d changed", j, name)
+			}
+		}
+	}
+	return ""
+}
+
+// projectLog: the observables of BootProcess.Log as it is now
+func (b *built) projectLog() []obsEntry {
+	log := []obsEntry{}
 	for _, e := range b.process.Log {
 		oe := obsEntry{Sid: b.sidOf(e.Step), Actions: [][2]int{}, Issues: []int{}, Actor: actorID(e.Actor), Code: -1}
 		for _, a := range e.Actions {
@@ -621,8 +808,23 @@ func (b *built) observe(done bool) obsResult {
 				}
 			}
 		}
-		o.Log = append(o.Log, oe)
+		oe.Loc = b.locate(e.Actions)
+		log = append(log, oe)
 	}
+	return log
+}
+
+func (b *built) observe(done bool) obsResult {
+	var o obsResult
+	o.Log = b.projectLog()
+	for _, arr := range b.arrays {
+		codes := [][2]int{}
+		for _, a := range arr[:cap(arr)] {
+			codes = append(codes, actionCode(a))
+		}
+		o.ArraysAfter = append(o.ArraysAfter, codes)
+	}
+	o.DefChanged = b.definitionChanged()
 	co := b.state.CurrentActionCoordinates
 	o.Flow = flowID(co.Flow.Name)
 	o.StepIdx = uint64(co.StepIndex)
@@ -640,6 +842,22 @@ func (b *built) observe(done bool) obsResult {
 	return o
 }
 
+func sameEntry(a, b obsEntry) bool {
+	return a.Sid == b.Sid && eqCodes(a.Actions, b.Actions) && eqInts(a.Issues, b.Issues) && eqInts(a.Measured, b.Measured) &&
+		a.Actor == b.Actor && a.Code == b.Code
+}
+
+func showEntry(e obsEntry) string {
+	return fmt.Sprintf("{step %d actions %v issues %v measured %v actor %d}", e.Sid, e.Actions, e.Issues, e.Measured, e.Actor)
+}
+
+func showEntryAt(l []obsEntry, j int) string {
+	if j >= len(l) {
+		return "(gone)"
+	}
+	return showEntry(l[j])
+}
+
 // run executes the real interpreter under a watchdog.
 func run(gc *gCase) obsResult {
 	b := build(gc)
@@ -650,6 +868,7 @@ func run(gc *gCase) obsResult {
 		done     bool
 	}
 	ch := make(chan res, 1)
+	unstable := ""
 	go func() {
 		var done bool
 		p, msg := gal.Recover(func() {
@@ -658,8 +877,20 @@ func run(gc *gCase) obsResult {
 				done = true
 				return
 			}
+			var before []obsEntry
 			for i := 0; i < gc.Steps; i++ {
-				if !b.process.NextStep(ctx) {
+				more := b.process.NextStep(ctx)
+				// the log records what was executed: the entries recorded by
+				// earlier calls still say the same
+				now := b.projectLog()
+				for j := range before {
+					if unstable == "" && (j >= len(now) || !sameEntry(before[j], now[j])) {
+						unstable = fmt.Sprintf("log entry %d was %s when it was recorded and reads %s after NextStep call #%d",
+							j, showEntry(before[j]), showEntryAt(now, j), i+1)
+					}
+				}
+				before = now
+				if !more {
 					done = true
 					return
 				}
@@ -670,6 +901,7 @@ func run(gc *gCase) obsResult {
 	select {
 	case r := <-ch:
 		o := b.observe(r.done)
+		o.Unstable = unstable
 		o.Panicked, o.Msg = r.panicked, r.msg
 		if len(o.Msg) > 200 {
 			o.Msg = o.Msg[:200]
@@ -756,30 +988,38 @@ func galOptStep(s *gStep) string {
 	return "(Some (" + galStep(s) + "))"
 }
 
+// the window of a step as a Model/InterpHeap.v slice
+func galSlice(s *gStep) string {
+	return "(Some (mkSl " + gal.Nat(s.Arr) + " " + gal.Nat(s.Off) + " " + gal.Nat(len(s.Acts)) + " " + gal.Nat(s.Cap) + "))"
+}
+
 func galStep(s *gStep) string {
 	switch s.K {
 	case sStatic, sMeasure:
-		return "SStatic " + galActs(s.Acts)
+		if s.Nil {
+			return "HStatic None"
+		}
+		return "HStatic " + galSlice(s)
 	case sIf:
-		return "SIf (" + galCond(s.Cond) + ") " + galOptStep(s.Then) + " " + galOptStep(s.Else)
+		return "HIf (" + galCond(s.Cond) + ") " + galOptStep(s.Then) + " " + galOptStep(s.Else)
 	case sMerge:
 		subs := make([]string, len(s.Subs))
 		for i, x := range s.Subs {
 			subs[i] = galOptStep(x)
 		}
-		return "SMerge " + gal.List(subs)
+		return "HMerge " + gal.List(subs)
 	case sSetFlow:
-		return "SSetFlow " + gal.Z(int64(s.Flow))
+		return "HSetFlow " + gal.Z(int64(s.Flow))
 	case sSetActor:
-		return "SSetActor " + optZ(s.Actor)
+		return "HSetActor " + optZ(s.Actor)
 	case sPanic:
-		return "SPanic"
+		return "HPanic"
 	case sInitTPM:
-		return "SInitTPM " + gal.Bool(s.WithLog)
+		return "HInitTPM " + gal.Bool(s.WithLog)
 	case sCustom:
-		return "SCustom " + gal.Z(int64(s.ID)) + " " + gal.Bool(s.Panics) + " " + galActs(s.Acts)
+		return "HCustom " + gal.Z(int64(s.ID)) + " " + gal.Bool(s.Panics) + " " + galSlice(s)
 	case sSetFlowFunc:
-		return "SSetFlowFunc " + gal.Z(int64(s.ID)) + " (" + galFun(s.Fn) + ")"
+		return "HSetFlowFunc " + gal.Z(int64(s.ID)) + " (" + galFun(s.Fn) + ")"
 	}
 	panic("bad step")
 }
@@ -794,6 +1034,35 @@ func galFamily(gc *gCase) string {
 		fl[i] = gal.Pair(gal.Z(int64(f.Name)), gal.List(st))
 	}
 	return gal.List(fl)
+}
+
+func galHeap(gc *gCase) string {
+	arrs := make([]string, len(gc.Arrays))
+	for i, a := range gc.Arrays {
+		arrs[i] = galActs(a)
+	}
+	return gal.List(arrs)
+}
+
+// slice-level observation: where each logged slice points, the arrays after the run
+func galHObs(o obsResult) string {
+	locs := make([]string, len(o.Log))
+	for i, e := range o.Log {
+		if e.Loc == nil {
+			locs[i] = "None"
+		} else {
+			locs[i] = "(Some (" + gal.Nat(e.Loc[0]) + ", " + gal.Nat(e.Loc[1]) + "))"
+		}
+	}
+	arrs := make([]string, len(o.ArraysAfter))
+	for i, a := range o.ArraysAfter {
+		cs := make([]string, len(a))
+		for j, c := range a {
+			cs[j] = gal.Pair(gal.Z(int64(c[0])), gal.Z(int64(c[1])))
+		}
+		arrs[i] = gal.List(cs)
+	}
+	return "(" + gal.List(locs) + ", " + gal.List(arrs) + ")"
 }
 
 func galTPM(v int) string {
@@ -829,9 +1098,9 @@ func galObs(o obsResult) string {
 
 func galCase(gc *gCase, o obsResult) string {
 	if gc.Steps < 0 {
-		return "CFinish " + galFamily(gc) + " " + galCore(gc) + " " + gal.Z(int64(gc.Root)) + " " + galObs(o)
+		return "CHFinish " + galHeap(gc) + " " + galFamily(gc) + " " + galCore(gc) + " " + gal.Z(int64(gc.Root)) + " " + galObs(o) + " " + galHObs(o)
 	}
-	return "CSteps " + galFamily(gc) + " " + galCore(gc) + " " + gal.Z(int64(gc.Root)) + " " + gal.Nat(gc.Steps) + " " + galObs(o)
+	return "CHSteps " + galHeap(gc) + " " + galFamily(gc) + " " + galCore(gc) + " " + gal.Z(int64(gc.Root)) + " " + gal.Nat(gc.Steps) + " " + galObs(o) + " " + galHObs(o)
 }
 
 // ------------------------------------------------------------------ the independent oracle
@@ -1602,7 +1871,248 @@ func (g *gen) family(acyclic bool) *gCase {
 	} else if g.p(15) {
 		gc.Steps = g.rn(12)
 	}
+	g.layout(gc)
 	return gc
+}
+
+// ------------------------------------------------------------------ memory layout of the definition
+
+// listNodes: the steps that own an action list, in definition order, each
+// AST node once; per flow and all together.
+func listNodes(gc *gCase) (all []*gStep, perFlow [][]*gStep) {
+	seen := map[*gStep]bool{}
+	var cur []*gStep
+	var walk func(s *gStep)
+	walk = func(s *gStep) {
+		if s == nil || seen[s] {
+			return
+		}
+		seen[s] = true
+		if s.hasList() {
+			cur = append(cur, s)
+		}
+		walk(s.Then)
+		walk(s.Else)
+		for _, x := range s.Subs {
+			walk(x)
+		}
+	}
+	for i := range gc.Flows {
+		cur = nil
+		for _, ts := range gc.Flows[i].Steps {
+			walk(ts.S)
+		}
+		perFlow = append(perFlow, cur)
+		all = append(all, cur...)
+	}
+	return
+}
+
+func copyActs(as []gAct) []gAct { return append([]gAct{}, as...) }
+
+// ownArray: the step gets an array of its own: its actions followed by spare slots
+func ownArray(gc *gCase, s *gStep, spare []gAct, capacity int) {
+	arr := append(copyActs(s.Acts), spare...)
+	s.Arr, s.Off, s.Cap = len(gc.Arrays), 0, capacity
+	gc.Arrays = append(gc.Arrays, arr)
+}
+
+// layoutExact: every step that has no window yet gets a private array with
+// cap == len, as a composite literal has (an empty list: one spare slot, so
+// that distinct empty lists are distinct Go values).
+func layoutExact(gc *gCase) {
+	if gc.Arrays == nil {
+		gc.Arrays = [][]gAct{}
+	}
+	all, _ := listNodes(gc)
+	for _, s := range all {
+		if s.Cap > 0 {
+			continue
+		}
+		if len(s.Acts) == 0 {
+			ownArray(gc, s, []gAct{act(aPanic)}, 1)
+		} else {
+			ownArray(gc, s, nil, len(s.Acts))
+		}
+	}
+	if gc.Layout == "" {
+		gc.Layout = "exact"
+	}
+	unifySids(gc)
+}
+
+// unifySids: top-level static steps that are the same window are the same Go
+// value (StaticStep is a slice type: same pointer, same length), the log
+// cannot tell them apart; they share an id.
+func unifySids(gc *gCase) {
+	type key struct{ arr, off, n int }
+	first := map[key]int{}
+	for i := range gc.Flows {
+		for j := range gc.Flows[i].Steps {
+			ts := &gc.Flows[i].Steps[j]
+			if ts.S == nil || ts.S.K != sStatic || ts.S.Nil {
+				continue
+			}
+			k := key{ts.S.Arr, ts.S.Off, len(ts.S.Acts)}
+			if sid, ok := first[k]; ok {
+				ts.Sid = sid
+			} else {
+				first[k] = ts.Sid
+			}
+		}
+	}
+}
+
+// layout decides where the action lists of a generated family live.
+func (g *gen) layout(gc *gCase) {
+	gc.Arrays = [][]gAct{}
+	all, perFlow := listNodes(gc)
+	mode := "shared"
+	switch r := g.rn(100); {
+	case r < 15:
+		mode = "exact"
+	case r < 30:
+		mode = "spare"
+	}
+	aliasPct := 0
+	if mode != "exact" && g.p(60) {
+		aliasPct = 10 + g.rn(30)
+	}
+	// which steps re-use (part of) the list of an earlier step of their flow
+	aliases := 0
+	for _, nodes := range perFlow {
+		for i, n := range nodes {
+			if i == 0 || n.K == sMeasure || !g.p(aliasPct) {
+				continue
+			}
+			var cand []*gStep
+			for _, m := range nodes[:i] {
+				if m.K != sMeasure && m.aliasOf == nil && len(m.Acts) > 0 {
+					cand = append(cand, m)
+				}
+			}
+			if len(cand) > 0 {
+				n.aliasOf = cand[g.rn(len(cand))]
+				aliases++
+			}
+		}
+	}
+	fillers := func(n int) []gAct {
+		r := make([]gAct, 0, n)
+		for i := 0; i < n; i++ {
+			r = append(r, g.act(0))
+		}
+		return r
+	}
+	var owners []*gStep
+	for _, s := range all {
+		switch {
+		case s.K == sMeasure:
+			ownArray(gc, s, nil, 1) // the literal of tpmsteps.Measure
+		case s.aliasOf == nil:
+			owners = append(owners, s)
+		}
+	}
+	switch mode {
+	case "exact":
+		for _, s := range owners {
+			if len(s.Acts) == 0 {
+				ownArray(gc, s, fillers(1), 1)
+			} else {
+				ownArray(gc, s, nil, len(s.Acts))
+			}
+		}
+	case "spare":
+		for _, s := range owners {
+			sp := 1 + g.rn(3)
+			c := len(s.Acts) + sp
+			if g.p(30) {
+				c = len(s.Acts) + 1 + g.rn(sp)
+			}
+			ownArray(gc, s, fillers(sp), c)
+		}
+	default:
+		// side by side in a few arrays, in any order
+		for i := len(owners) - 1; i > 0; i-- {
+			j := g.rn(i + 1)
+			owners[i], owners[j] = owners[j], owners[i]
+		}
+		groups := 1 + g.rn(3)
+		for len(owners) > 0 {
+			n := len(owners)
+			if groups > 1 {
+				n = 1 + g.rn(len(owners))
+			}
+			groups--
+			grp := owners[:n]
+			owners = owners[n:]
+			k := len(gc.Arrays)
+			var arr []gAct
+			for _, s := range grp {
+				s.Arr, s.Off = k, len(arr)
+				arr = append(arr, s.Acts...)
+				if g.p(25) {
+					arr = append(arr, fillers(1+g.rn(2))...)
+				}
+			}
+			// every window keeps at least one slot of capacity
+			last := grp[len(grp)-1]
+			if last.Off+len(last.Acts) == len(arr) && (len(last.Acts) == 0 || g.p(50)) {
+				arr = append(arr, fillers(1+g.rn(2))...)
+			}
+			for _, s := range grp {
+				rest := len(arr) - s.Off // up to the end of the array
+				n := len(s.Acts)
+				switch r := g.rn(100); {
+				case r < 55:
+					s.Cap = rest // arr[off : off+len]
+				case r < 75:
+					s.Cap = n // arr[off : off+len : off+len]
+				default:
+					s.Cap = n + g.rn(rest-n+1)
+				}
+				if s.Cap < 1 {
+					s.Cap = 1
+				}
+			}
+			gc.Arrays = append(gc.Arrays, arr)
+		}
+	}
+	// sub-windows of other steps' lists
+	for _, n := range all {
+		m := n.aliasOf
+		if m == nil {
+			continue
+		}
+		l := len(m.Acts)
+		i, j := 0, l
+		switch r := g.rn(100); {
+		case r < 45: // the very same window
+		case r < 80: // a prefix
+			j = g.rn(l + 1)
+		default:
+			i = g.rn(l)
+			j = i + g.rn(l-i+1)
+		}
+		n.Arr, n.Off, n.Acts = m.Arr, m.Off+i, copyActs(m.Acts[i:j])
+		most := m.Cap - i
+		switch r := g.rn(100); {
+		case r < 60:
+			n.Cap = most // plain re-slice
+		case r < 80:
+			n.Cap = j - i
+		default:
+			n.Cap = (j - i) + g.rn(most-(j-i)+1)
+		}
+		if n.Cap < 1 {
+			n.Cap = 1
+		}
+	}
+	gc.Layout = mode
+	if aliases > 0 {
+		gc.Layout += fmt.Sprintf(" + %d re-used (sub-)windows", aliases)
+	}
+	unifySids(gc)
 }
 
 // ------------------------------------------------------------------ fixed edge cases
@@ -1640,8 +2150,13 @@ func funcS(id int, fn *gFun) *gStep { return &gStep{K: sSetFlowFunc, ID: id, Fn:
 
 func fixedCases() []*gCase {
 	var r []*gCase
+	var arrays [][]gAct // set before mk: arrays the windows made by win() point into
 	mk := func(comment string, tpmv int, flows ...gFlow) *gCase {
 		gc := &gCase{Flows: flows, Root: flows[0].Name, TPM: tpmv, Actor0: -1, Meas0: []int{}, Steps: -1, Comment: comment}
+		if arrays != nil {
+			gc.Arrays, gc.Layout = arrays, "explicit windows"
+			arrays = nil
+		}
 		sid := 10
 		for i := range gc.Flows {
 			for j := range gc.Flows[i].Steps {
@@ -1657,9 +2172,15 @@ func fixedCases() []*gCase {
 				}
 			}
 		}
+		layoutExact(gc)
 		r = append(r, gc)
 		return gc
 	}
+	// win: a static step that is the window arrays[arr][off : off+n : off+capacity]
+	win := func(arr, off, n, capacity int) *gStep {
+		return &gStep{K: sStatic, Acts: copyActs(arrays[arr][off : off+n]), Arr: arr, Off: off, Cap: capacity}
+	}
+	merge := func(subs ...*gStep) *gStep { return &gStep{K: sMerge, Subs: subs} }
 	fl := func(name int, steps ...*gStep) gFlow {
 		f := gFlow{Name: name, Steps: []gTop{}}
 		for _, s := range steps {
@@ -1741,6 +2262,39 @@ func fixedCases() []*gCase {
 	cy.Steps = 11
 	self := mk("a flow restarting itself", 1, fl(0, static(customA(1, 2, -1, rErr)), static(setFlowA(0), measA(3, 0))))
 	self.Steps = 7
+	// action lists that share memory: the list of a step is a window of an
+	// array of the definition; what lies behind a window (its spare capacity)
+	// is another step's list
+	abc := func() [][]gAct {
+		return [][]gAct{{customA(1, 101, -1, rOk), customA(2, 102, -1, rErr), customA(3, 103, -1, rOk), customA(4, 104, -1, rOk)}}
+	}
+	arrays = abc()
+	mk("a merged step starting with a prefix of the list that a later step runs in full", 1,
+		fl(0, merge(win(0, 0, 1, 4), static(customA(5, 105, -1, rOk))), win(0, 0, 3, 4), static(measA(6, 0))))
+	arrays = abc()
+	mk("the same short window opens two merged steps", 1,
+		fl(0, merge(win(0, 0, 1, 4), static(customA(5, 105, -1, rOk))), merge(win(0, 0, 1, 4), static(customA(6, 106, -1, rOk)), static(customA(7, 107, -1, rOk))), win(0, 1, 2, 3)))
+	for k := 1; k <= 4; k++ {
+		arrays = abc()
+		gc := mk("the same short window opens two merged steps, stepwise", 1,
+			fl(0, merge(win(0, 0, 1, 4), static(customA(5, 105, -1, rOk))), merge(win(0, 0, 1, 4), static(customA(6, 106, -1, rOk))), win(0, 0, 4, 4)))
+		gc.Steps = k
+	}
+	arrays = abc()
+	mk("a conditional hands the window of its branch to the merged step around it", 1,
+		fl(0, merge(&gStep{K: sIf, Cond: &gCond{K: cConst, B: true}, Then: win(0, 1, 1, 3)}, &gStep{K: sSetActor, Actor: 5}, static(measA(5, 0))),
+			&gStep{K: sIf, Cond: &gCond{K: cActorIs, Actor: 5}, Then: win(0, 0, 4, 4), Else: win(0, 2, 2, 2)}))
+	arrays = abc()
+	mk("nested merged steps over neighbouring windows", 1,
+		fl(0, merge(merge(win(0, 0, 2, 2), win(0, 2, 1, 2)), merge(win(0, 1, 1, 3)), win(0, 3, 1, 1)), win(0, 0, 4, 4)),
+		fl(1, win(0, 1, 3, 3)))
+	arrays = abc()
+	cyw := mk("a flow restarting itself: the same merged steps over shared windows on every round", 1,
+		fl(0, merge(win(0, 0, 1, 4), static(customA(5, 105, -1, rOk))), win(0, 0, 2, 2), merge(win(0, 2, 0, 2), static(setFlowA(0)), win(0, 3, 1, 1))))
+	cyw.Steps = 9
+	arrays = abc()
+	mk("a custom step and a static step on one array, an empty window in between", 1,
+		fl(0, merge(&gStep{K: sCustom, ID: 9, Acts: copyActs(arrays[0][0:2]), Arr: 0, Off: 0, Cap: 4}, win(0, 2, 0, 2), win(0, 2, 2, 2)), win(0, 2, 0, 2), win(0, 1, 3, 3)))
 	// the longest allowed chain: 4 flows of 8 steps
 	var chain []gFlow
 	id := 0
@@ -1808,10 +2362,76 @@ func one(c *gal.Ctx, kind string, gc *gCase) {
 	if or != nil && or.funcSensitive > 0 {
 		c.Count("runs where a flow function answers differently for the state at the start of its step")
 	}
+	// the log records what was executed, and goes on recording it
+	if what == "" && o.Unstable != "" {
+		what, where = "a log entry changed after it was recorded: "+o.Unstable, site+" NextStep (StepResult.Actions shares memory that is written later)"
+	}
+	// the run is judged against the flow as defined before it; it must still be that flow
+	if o.DefChanged != "" {
+		msg := "the flow definition was modified by running it: " + o.DefChanged
+		if what == "" {
+			what, where = msg, "Step.Actions implementations (pkg/bootflow/steps, pkg/bootflow/types/flow.go): a slice handed out by a step was written to"
+		} else {
+			what += "; " + msg
+		}
+	}
+	layoutStats(c, gc, o)
 	if what != "" {
 		c.OracleFail(idx, what, where, gc)
 	} else {
 		c.OracleOK()
+	}
+}
+
+// layoutStats: how the executed steps' lists lie in memory
+func layoutStats(c *gal.Ctx, gc *gCase, o obsResult) {
+	c.Count("layout: " + strings.SplitN(gc.Layout, " +", 2)[0])
+	executed := map[int]bool{}
+	for _, e := range o.Log {
+		executed[e.Sid] = true
+	}
+	type span struct{ arr, lo, hi int }
+	var lists []span     // lists of executed steps
+	var openers []span   // capacity behind the first part of an executed merged step
+	var walk func(s *gStep)
+	seen := map[*gStep]bool{}
+	walk = func(s *gStep) {
+		if s == nil || seen[s] {
+			return
+		}
+		seen[s] = true
+		if s.hasList() {
+			lists = append(lists, span{s.Arr, s.Off, s.Off + len(s.Acts)})
+		}
+		if s.K == sMerge && len(s.Subs) > 1 {
+			f := s.Subs[0]
+			for f != nil && f.K == sIf && f.Then != nil {
+				f = f.Then
+			}
+			if f != nil && f.hasList() && f.Cap > len(f.Acts) {
+				openers = append(openers, span{f.Arr, f.Off + len(f.Acts), f.Off + f.Cap})
+			}
+		}
+		walk(s.Then)
+		walk(s.Else)
+		for _, x := range s.Subs {
+			walk(x)
+		}
+	}
+	for _, f := range gc.Flows {
+		for _, ts := range f.Steps {
+			if executed[ts.Sid] {
+				walk(ts.S)
+			}
+		}
+	}
+	for _, op := range openers {
+		for _, l := range lists {
+			if l.arr == op.arr && l.lo < op.hi && op.lo < l.hi {
+				c.Count("runs executing a merged step whose first part has spare capacity that is another executed step's list")
+				return
+			}
+		}
 	}
 }
 
@@ -1854,5 +2474,8 @@ func main() {
 		"switching first steps, failing/panicking steps, actions, conditions and data sources, actor changes, TPM present/absent/initialised, " +
 		"static and function-based set-flow steps/actions incl. functions placed after an action of the same step that changes what they look at, panicking functions) run with Finish; " +
 		"every fifth family is cyclic and run with a bounded number of NextStep calls; fixed edge cases; " +
+		"every family has a memory layout: the action lists of static/custom steps are windows of action arrays of the definition (15% private exact, 15% private with spare capacity, " +
+		"70% several lists of several flows side by side in 1-3 arrays with full/limited/no spare capacity; in 60% of the non-exact layouts 10-40% of the steps re-use the window, a prefix or a sub-window of an earlier step of their flow); " +
+		"after the run every slot of the definition's arrays and Steps arrays is compared with its value before the run, stepwise runs re-read the recorded log entries after every NextStep; " +
 		"a case is non-trivial when at least two steps were executed; distinct = distinct Gallina literal")
 }
